@@ -19,22 +19,19 @@ for d in sorted(glob.glob("/verif/seeded/*")):
                 h = re.search(r"harness (\S+), failed: (.*)", line)
                 if h:
                     cur["roles"].append((h.group(1).rstrip(","), h.group(2).strip()))
-    last = {}
-    for r in runs:
-        last[r["tier"]] = r
-    cells = []
-    for tier in ("quick", "thorough"):
-        r = last.get(tier)
-        if not r:
-            cells.append("not run")
-        elif r["exit"] == 1 and r["violations"] > 0:
+    def cell(r):
+        if r["exit"] == 1 and r["violations"] > 0:
             hs = sorted({h for h, _ in r["roles"]})
             roles = sorted({ro for _, ro in r["roles"]})
-            cells.append("**caught** (%d s): %s - %s" % (r["wall"], ", ".join("`%s`" % h for h in hs), "; ".join(roles)[:260]))
-        elif r["exit"] == 0:
-            cells.append("missed (%d s)" % r["wall"])
-        else:
-            cells.append("exit %d, %d violations (%d s)" % (r["exit"], r["violations"], r["wall"]))
+            return "**caught** (%d s): %s - %s" % (r["wall"], ", ".join("`%s`" % h for h in hs), "; ".join(roles)[:260])
+        if r["exit"] == 0:
+            return "missed (%d s)" % r["wall"]
+        return "exit %d, %d violations (%d s)" % (r["exit"], r["violations"], r["wall"])
+    cells = []
+    for tier in ("quick", "thorough"):
+        rs = [r for r in runs if r["tier"] == tier]
+        # every run is shown, oldest first: a "missed -> caught" pair documents a strengthened check
+        cells.append(" -> ".join(cell(r) for r in rs) if rs else "not run")
     rows.append((name, meta["property"], meta["breaks"], cells))
 
 print("| seeded change | what it breaks | quick | thorough |")
